@@ -1,9 +1,113 @@
 import NibabelModel.Model.C09
 import Driver.Util
-/-! Line-protocol driver for C09: `C09 <op> <args...>` -> one observable line. -/
+/-! Line-protocol driver for C09.
+
+  `C09 hist <orig 0|1> <init> <ops>`
+    init : 6 comma separated on-disk dtypes (`u8 i16 i32 f32 f64`) or `-` (file absent), in the order
+           a.nii a.nii.gz b.nii a.img a.mgh a.mgz; file i starts with data id i, affine id i, tag 0, unscaled
+    ops  : comma separated  L<path 0-5><mmap 0|1> | F | U | E<k> | A<k> | D<dt> | S<path> | B
+  output: one token per op, then `live=…` and `fs=…` (nothing after the first `BAD`).
+-/
 namespace Nb.Drv.C09
+open Nb.C09
+
+def parseDT? (s : String) : Option DT :=
+  if s = "u8" then some .u8 else if s = "i16" then some .i16 else if s = "i32" then some .i32
+  else if s = "f32" then some .f32 else if s = "f64" then some .f64 else none
+
+def showDT : DT → String
+  | .u8 => "u8" | .i16 => "i16" | .i32 => "i32" | .f32 => "f32" | .f64 => "f64"
+
+def pathOf? (n : Nat) : Option Path := Path.all[n]?
+
+def pathIdx : Path → Nat
+  | .aNii => 0 | .aNiiGz => 1 | .bNii => 2 | .aImg => 3 | .aMgh => 4 | .aMgz => 5
+
+def parsePath? (s : String) : Option Path := s.toNat?.bind pathOf?
+
+def showCls : Cls → String
+  | .nifti1 => "N1" | .pair => "NP" | .mgh => "MG"
+
+def parseOp? (s : String) : Option Op :=
+  if s = "F" then some .fdata
+  else if s = "U" then some .uncache
+  else if s = "B" then some .toBytes
+  else if s.startsWith "L" ∧ s.length = 3 then
+    match parsePath? ((s.drop 1).take 1).toString, ((s.drop 2).toString) with
+    | some p, "0" => some (.load p false)
+    | some p, "1" => some (.load p true)
+    | _, _ => none
+  else if s.startsWith "S" then (parsePath? (s.drop 1).toString).map Op.save
+  else if s.startsWith "E" then ((s.drop 1).toString.toNat?).map Op.edit
+  else if s.startsWith "A" then ((s.drop 1).toString.toNat?).map Op.setAff
+  else if s.startsWith "D" then (parseDT? (s.drop 1).toString).map Op.setDt
+  else none
+
+def opLetter : Op → String
+  | .load _ _ => "L" | .fdata => "F" | .uncache => "U" | .edit _ => "E" | .setAff _ => "A"
+  | .setDt _ => "D" | .save _ => "S" | .toBytes => "B"
+
+def showContent (c : Content) : String :=
+  toString c.data ++ "/" ++ toString c.aff ++ "/" ++ showDT c.dt ++ (if c.scaled then "s" else "") ++ "/" ++
+    toString c.tag
+
+def showOut (op : Op) (im? : Option Img) : Out → String
+  | .noImg => "-"
+  | .loadOk => "L:ok"
+  | .loadErr => "L:ERR"
+  | .fdata d => "F:" ++ toString d
+  | .unit => "ok"
+  | .dtOk => "D:ok"
+  | .dtErr => "D:ERR"
+  | .saved c => (match op with
+      | .save q => "S:" ++ showContent c ++ "/" ++ showCls q.cls
+      | _ => "bad-op")
+  | .bytes c => "B:" ++ showContent c ++ "/" ++ (match im? with | some im => showCls im.cls | none => "?")
+  | .bytesErr => "B:ERR"
+  | .bad => opLetter op ++ ":BAD"
+
+def initFS (dts : List (Option DT)) : FS := fun p =>
+  match dts[pathIdx p]? with
+  | some (some dt) => some (.intact { data := pathIdx p, aff := pathIdx p, dt := dt, scaled := false, tag := 0 })
+  | _ => none
+
+def showFile (p : Path) : Option File → String
+  | none => "-"
+  | some .truncated => "T"
+  | some (.intact c) => showContent c ++ "/" ++ showCls p.cls
+
+def showLive (s : St) : String :=
+  match s.img, probe s with
+  | none, _ => "live=none"
+  | some _, none => "live=BAD"
+  | some _, some none => "live=none"
+  | some im, some (some (d, d2)) =>
+      "live=" ++ showCls im.cls ++ "/" ++ showDT im.dt ++ "/" ++ toString im.tag ++ "/" ++ toString im.aff ++ "/" ++
+        (match im.fname with | some p => toString (pathIdx p) | none => "-") ++ "/" ++ toString d ++ "/" ++ toString d2
+
+/-- run, printing tokens; mirrors `Nb.C09.run` (stops at the first bad) -/
+def runShow (orig : Bool) : St → List Op → List String
+  | s, [] => [showLive s, "fs=" ++ ";".intercalate (Path.all.map (fun p => showFile p (s.fs p)))]
+  | s, op :: rest =>
+    match step orig s op with
+    | (.bad, _) => [showOut op s.img .bad]
+    | (o, s') => showOut op s.img o :: runShow orig s' rest
+
+def parseInit? (s : String) : Option (List (Option DT)) :=
+  let parts := s.splitOn ","
+  if parts.length ≠ 6 then none
+  else parts.mapM (fun t => if t = "-" then some none else (parseDT? t).map some)
+
+def mghInitOk (dts : List (Option DT)) : Bool :=
+  (dts.drop 4).all (fun d => d != some DT.f64)
 
 def handle : List String → String
+  | ["hist", orig, init, ops] =>
+      match (if orig = "0" then some false else if orig = "1" then some true else none),
+            parseInit? init, (if ops = "-" then some [] else (ops.splitOn ",").mapM parseOp?) with
+      | some o, some dts, some ops =>
+          if mghInitOk dts then " ".intercalate (runShow o { fs := initFS dts, img := none } ops) else "bad-op"
+      | _, _, _ => "bad-op"
   | _ => "bad-op"
 
 end Nb.Drv.C09
